@@ -4,6 +4,13 @@
 -/
 import XzVerif.Model.Container
 import XzVerif.Gen.C02
+import XzVerif.Lemmas.C02Vli
+import XzVerif.Lemmas.C02Stream
+import XzVerif.Lemmas.C02Dict
+import XzVerif.Lemmas.C02Bound
+import XzVerif.Lemmas.C02Filter
+import XzVerif.Lemmas.C02Block
+import XzVerif.Lemmas.C02Index
 
 namespace XzVerif.C02
 open XzVerif XzVerif.Vli XzVerif.Container
@@ -77,5 +84,187 @@ theorem gen_vli_size : Gen.C02.vliSizeSamples.all (fun p => vliSize p.1 == p.2) 
 theorem gen_bounds :
     Gen.C02.boundSamples.all (fun p => lzma2Bound p.1 == p.2.1 && blockBufferBound64 p.1 == p.2.2.1 && streamBufferBound p.1 == p.2.2.2) = true := by
   decide +kernel
+
+/-! ## Variable-length integers -/
+
+/-- Decoding an encoded VLI gives the value back and leaves the rest of the buffer untouched. -/
+theorem vli_roundtrip (v : Nat) (t : List UInt8) (h : v ≤ VLI_MAX) : vliDecode (vliEncode v ++ t) = some (v, t) :=
+  vliDecode_encode v h t
+
+/-- `lzma_vli_size` is the length of what `lzma_vli_encode` writes: 1 to 9 bytes. -/
+theorem vli_size_eq_length (v : Nat) (h : v ≤ VLI_MAX) :
+    (vliEncode v).length = vliSize v ∧ 1 ≤ vliSize v ∧ vliSize v ≤ VLI_BYTES_MAX :=
+  ⟨vliEncode_length v h, vliSize_pos v h, vliSize_le v⟩
+
+/-- No padded (non-minimal) or over-long encoding is accepted: whatever the decoder accepts is exactly the encoder's
+    output for the decoded value, and that value is a valid VLI. -/
+theorem vli_minimal (b t : List UInt8) (v : Nat) (h : vliDecode b = some (v, t)) : b = vliEncode v ++ t ∧ v ≤ VLI_MAX := by
+  obtain ⟨h1, -, h3⟩ := vliDecodeAux_minimal b 0 v t (by omega) h
+  refine ⟨h1, ?_⟩
+  have : (128 : Nat) ^ (9 - 0) = 9223372036854775808 := by decide
+  simp only [VLI_MAX]; omega
+
+/-- Single-call `lzma_vli_encode` succeeds exactly when the value is valid and fits, and then writes `vliEncode v`. -/
+theorem vli_encode_single (v avail : Nat) (b : List UInt8) (h : vliEncodeSingle v avail = .ok b) :
+    b = vliEncode v ∧ v ≤ VLI_MAX ∧ b.length ≤ avail := vliEncodeSingle_ok v avail b h
+
+example : vliDecode (vliEncode 300 ++ [7]) = some (300, [7]) := by decide
+example : vliDecode [0x80, 0x00] = none := by decide                       -- padded encoding of 0 is rejected
+example : vliEncode VLI_MAX = [255, 255, 255, 255, 255, 255, 255, 255, 127] := by decide
+
+/-! ## Stream Header / Stream Footer -/
+
+/-- What `lzma_stream_header_encode` writes is 12 bytes that `lzma_stream_header_decode` maps back to the same flags. -/
+theorem stream_header_roundtrip (f : StreamFlags) (b t : List UInt8) (h : streamHeaderEncode f = .ok b) :
+    b.length = STREAM_HEADER_SIZE ∧ streamHeaderDecode (b ++ t) = .ok f := streamHeader_roundtrip f b t h
+
+/-- Footer: the flags and the Backward Size (in bytes) come back exactly. -/
+theorem stream_footer_roundtrip (f : StreamFlags) (bs : Nat) (b t : List UInt8) (h : streamFooterEncode f bs = .ok b) :
+    b.length = STREAM_HEADER_SIZE ∧ streamFooterDecode (b ++ t) = .ok (f, bs) := streamFooter_roundtrip f bs b t h
+
+example : ∃ b, streamHeaderEncode { check := 4 } = .ok b := ⟨_, rfl⟩
+example : ∃ b, streamFooterEncode { check := 1 } 24 = .ok b := ⟨_, rfl⟩
+
+/-! ## Filter Flags and Block Header -/
+
+/-- `lzma_filter_flags_encode` followed by `lzma_filter_flags_decode`: same ID, the stored properties are the
+    encoder's, they decode to the same options (LZMA2 dictionary size: to a size that covers the requested one), and
+    the decoder consumes exactly the encoder's bytes. -/
+theorem filter_flags_roundtrip (o : FilterOpts) (hw : o.wf) (avail : Nat) (bs : List UInt8)
+    (h : filterFlagsEncodeOpts o avail = .ok bs) :
+    ∃ props o', propsEncode o = .ok props ∧ bs = filterFlagsEncode ⟨o.id, props⟩ ∧ bs.length ≤ avail
+      ∧ propsDecode o.id props = .ok o' ∧ decodesTo o o'
+      ∧ ∀ t, filterFlagsDecode (bs ++ t) = .ok (⟨o.id, props⟩, t) := filterFlags_roundtrip o hw avail bs h
+
+/-- `lzma_block_header_decode` reads back exactly the sizes and filters `lzma_block_header_encode` was given
+    (any `header_size` the caller chose, any version ≤ 1). -/
+theorem block_header_roundtrip (version hs check : Nat) (cs us : Option Nat) (fs : List FilterOpts) (b t : List UInt8)
+    (hw : ∀ o ∈ fs, o.wf) (h : blockHeaderEncodeWith version hs check cs us fs = .ok b) :
+    ∃ raws, Forall2 FilterMatches fs raws ∧
+      blockHeaderDecode check (b ++ t) = .ok { compressedSize := cs, uncompressedSize := us, filters := raws } :=
+  (blockHeader_roundtrip version hs check cs us fs b t hw h).2.2.2.2.2
+
+/-- The Block Header is exactly as long as its first byte says, a multiple of four between 8 and 1024. -/
+theorem header_size_truthful (version hs check : Nat) (cs us : Option Nat) (fs : List FilterOpts) (b : List UInt8)
+    (hw : ∀ o ∈ fs, o.wf) (h : blockHeaderEncodeWith version hs check cs us fs = .ok b) :
+    b.length = hs ∧ ((b.getD 0 0).toNat + 1) * 4 = b.length ∧ b.length % 4 = 0 ∧ 8 ≤ b.length ∧ b.length ≤ 1024 := by
+  obtain ⟨h1, h2, h3, h4, h5, -⟩ := blockHeader_roundtrip version hs check cs us fs b [] hw h
+  rw [h1]; exact ⟨rfl, h5, h2, h3, h4⟩
+
+example : (blockHeaderEncode 4 (some 1000) (some 70000) [.bcj 4 0, .delta 3, .lzma2 8388608]).toOption.isSome = true := by
+  decide +kernel
+
+/-! ## Index -/
+
+/-- `lzma_index_buffer_decode` returns the Records `lzma_index_buffer_encode` wrote (for any Records
+    `lzma_index_append` accepts) and consumes exactly the Index field, whose size is `lzma_index_size`. -/
+theorem index_roundtrip (rs : List IndexRecord) (a : IndexAcc) (t : List UInt8)
+    (hlen : rs.length ≤ VLI_MAX) (h : indexAppendAll rs {} = .ok a) :
+    indexDecode (indexEncode rs ++ t) = .ok (rs, t) ∧ (indexEncode rs).length = indexSize rs.length (indexListSize rs) :=
+  Container.index_roundtrip rs a t hlen h
+
+/-- The Index size is a multiple of four (so Backward Size can store it) and Index Padding is 0..3 bytes. -/
+theorem index_size_aligned (count listSize : Nat) :
+    indexSize count listSize % 4 = 0 ∧ indexPaddingSize count listSize ≤ 3 ∧
+    indexSize count listSize = indexSizeUnpadded count listSize + indexPaddingSize count listSize := by
+  simp only [indexSize, indexPaddingSize, ceil4]
+  omega
+
+example : (indexAppendAll [⟨100, 1000⟩, ⟨5, 0⟩] {}).toOption.isSome = true := by decide +kernel
+
+/-! ## LZMA2 dictionary size and lc/lp/pb -/
+
+/-- The dictionary size declared in the Block Header is never smaller than the one the encoder was configured with. -/
+theorem lzma2_dict_covers (d : Nat) (h : d < 4294967296) :
+    ∃ s, lzma2DictDecode (lzma2DictEncode d) = some s ∧ max d 4096 ≤ s ∧ s ≤ UINT32_MAX := lzma2Dict_covers d h
+
+/-- Every valid dictionary-size byte is a fixed point: encoding the size it declares gives the byte back. -/
+theorem lzma2_dict_codes_fixed :
+    (List.range 41).all (fun c => match lzma2DictDecode c with
+      | some d => lzma2DictEncode d == c
+      | none => false) = true := by decide +kernel
+
+theorem lclppb_roundtrip (lc lp pb b : Nat) :
+    (lclppbEncode lc lp pb = some b → lclppbDecode b = some (lc, lp, pb)) ∧
+    (lclppbDecode b = some (lc, lp, pb) → lclppbEncode lc lp pb = some b) :=
+  ⟨lclppb_decode_encode lc lp pb b, lclppb_encode_decode b lc lp pb⟩
+
+/-- Of the 225 bytes 0..224 exactly the 75 with lc + lp ≤ 4 are accepted; nothing above 224 is. -/
+theorem lclppb_accepts_count : ((List.range 256).filter fun b => (lclppbDecode b).isSome).length = 75 := by decide +kernel
+
+/-! ## Bound functions -/
+
+/-- The bound functions return 0 exactly on their overflow guards: when the worst-case (uncompressed LZMA2 chunks)
+    payload for `n` bytes would exceed COMPRESSED_SIZE_MAX. Otherwise `lzma2_bound` is that payload size exactly. -/
+theorem bound_zero_iff_overflow (n : Nat) :
+    (lzma2Bound n = 0 ↔ uncompressedChunksSize n > COMPRESSED_SIZE_MAX) ∧
+    (blockBufferBound64 n = 0 ↔ lzma2Bound n = 0) ∧
+    (streamBufferBound n = 0 ↔ blockBufferBound64 n = 0) ∧
+    (lzma2Bound n ≠ 0 → lzma2Bound n = uncompressedChunksSize n) :=
+  ⟨(lzma2Bound_spec n).1, blockBufferBound64_zero_iff n, (streamBufferBound_spec n).1, (lzma2Bound_spec n).2⟩
+
+/-- No intermediate `uint64_t` expression of the bound functions wraps for an argument that passes the first guard. -/
+theorem bound_no_wrap (n : Nat) (h : n ≤ COMPRESSED_SIZE_MAX) :
+    n + LZMA2_CHUNK_MAX - 1 < 2 ^ 64 ∧
+    (n + LZMA2_CHUNK_MAX - 1) / LZMA2_CHUNK_MAX * LZMA2_HEADER_UNCOMPRESSED + 1 < 2 ^ 64 ∧
+    lzma2Bound n + 3 < 2 ^ 64 ∧ blockBufferBound64 n < 2 ^ 64 ∧ streamBufferBound n < 2 ^ 64 := bounds_no_wrap n h
+
+/-- A Block that stores `n` bytes as uncompressed LZMA2 chunks (what every single-call encoder falls back to) fits in
+    `lzma_block_buffer_bound64(n)`: Block Header (both size fields + the LZMA2 filter) + chunk headers + data + end
+    marker + Block Padding + the largest Check. -/
+theorem block_bound_sufficient (n check hs : Nat) (hb : lzma2Bound n ≠ 0) (hc : check ≤ CHECK_ID_MAX)
+    (hh : blockHeaderSize 0 (some (lzma2Bound n)) (some n) [.lzma2 DICT_SIZE_MIN] = .ok hs) :
+    hs + ceil4 (uncompressedChunksSize n) + checkSize check ≤ blockBufferBound64 n := by
+  have hl2 := (lzma2Bound_spec n).2 hb
+  have hcs := checkSize_le check (by simpa [CHECK_ID_MAX] using hc)
+  have h1 := vliSize_le (lzma2Bound n)
+  have h2 := vliSize_le n
+  have hhs : hs ≤ 28 := by
+    have hA : ∀ a, sizeOptVli true (some (lzma2Bound n)) = .ok a → a ≤ 9 := by
+      intro a ha
+      simp only [sizeOptVli] at ha
+      split at ha
+      · simp at ha
+      · simp only [Except.ok.injEq] at ha; omega
+    have hB : ∀ a, sizeOptVli false (some n) = .ok a → a ≤ 9 := by
+      intro a ha
+      simp only [sizeOptVli] at ha
+      split at ha
+      · simp at ha
+      · simp only [Except.ok.injEq] at ha; omega
+    unfold blockHeaderSize at hh
+    rw [if_neg (by omega)] at hh
+    cases ha : sizeOptVli true (some (lzma2Bound n)) with
+    | error e => simp [ha] at hh
+    | ok a =>
+      cases hb' : sizeOptVli false (some n) with
+      | error e => simp [ha, hb'] at hh
+      | ok b =>
+        have := hA a ha
+        have := hB b hb'
+        have hff : filterFlagsSize (.lzma2 DICT_SIZE_MIN) = .ok 3 := by decide
+        simp [ha, hb', headerSizeFilters, hff, FILTERS_MAX] at hh
+        omega
+  rw [blockBufferBound64_eq, if_neg hb, ← hl2]
+  unfold ceil4
+  omega
+
+/-- `lzma_stream_buffer_bound(n)` = Block bound + both 12-byte headers + the largest possible one-Record Index;
+    a one-Record Index never needs more than INDEX_BOUND, an empty one needs 8 bytes. -/
+theorem stream_bound_sufficient_partial (n u c : Nat) (hb : streamBufferBound n ≠ 0) :
+    streamBufferBound n = blockBufferBound64 n + 2 * STREAM_HEADER_SIZE + INDEX_BOUND ∧
+    indexSize 1 (vliSize u + vliSize c) ≤ INDEX_BOUND ∧ indexSize 0 0 ≤ INDEX_BOUND :=
+  ⟨(streamBufferBound_spec n).2 hb, indexSize_one_le u c, by decide⟩
+
+/-- Full statement (not proved: it needs a model of `lzma_stream_buffer_encode` including the LZMA2 encoder's
+    fall-back to uncompressed chunks; the arithmetic part is `stream_bound_sufficient_partial` + `block_bound_sufficient`,
+    the behaviour is observed by the `xbound` correspondence ops): with `out_size = lzma_stream_buffer_bound(n) ≠ 0`
+    the single-call Stream encoder never returns LZMA_BUF_ERROR. -/
+def stream_bound_sufficient_statement (streamBufferEncode : List FilterOpts → Nat → List UInt8 → Nat → Res (List UInt8)) : Prop :=
+  ∀ fs check data, streamBufferBound data.length ≠ 0 →
+    Res.ret (streamBufferEncode fs check data (streamBufferBound data.length)) ≠ Ret.bufError
+
+example : lzma2Bound 65537 = 65544 ∧ blockBufferBound64 65537 = 65636 ∧ streamBufferBound 65537 = 65684 := by decide
+example : blockHeaderSize 0 (some (lzma2Bound 65537)) (some 65537) [.lzma2 DICT_SIZE_MIN] = .ok 16 := by decide
 
 end XzVerif.C02
